@@ -58,12 +58,14 @@ package casketfile
 //@   requires d != nil
 //@   modifies Dispenser.cursor, Dispenser.nesting
 //@   ensures [monotone] d.cursor >= old(d.cursor)
+//@   ensures [in_range] old(d.cursor) >= 0 ==> (result ==> (0 <= d.cursor && d.cursor < len(d.tokens)))
 //@   ensures [progress] result ==> d.cursor >= old(d.cursor) + 1
 //@   ensures [progress_bound] result ==> old(d.cursor) < len(d.tokens) - 1 || old(d.cursor) < 0
 //@ func (*Dispenser).NextBlock
 //@   requires d != nil
 //@   modifies Dispenser.cursor, Dispenser.nesting
 //@   ensures [monotone] d.cursor >= old(d.cursor)
+//@   ensures [in_range] old(d.cursor) >= 0 ==> (result ==> (0 <= d.cursor && d.cursor < len(d.tokens)))
 //@   ensures [progress] result ==> d.cursor >= old(d.cursor) + 1
 //@   ensures [progress_bound] result ==> old(d.cursor) < len(d.tokens) - 1 || old(d.cursor) < 0
 //@ func (*Dispenser).Nesting
@@ -73,6 +75,7 @@ package casketfile
 //@   pure reads Dispenser, E:github.com/tmpim/casket/casketfile.Token
 //@   requires d != nil
 //@   ensures (d.cursor < 0 || d.cursor >= len(d.tokens)) ==> result == ""
+//@   ensures [text_of_current_token] (0 <= d.cursor && d.cursor < len(d.tokens)) ==> result == d.tokens[d.cursor].Text
 //@ func (*Dispenser).Line
 //@   pure reads Dispenser, E:github.com/tmpim/casket/casketfile.Token
 //@   requires d != nil
@@ -98,7 +101,10 @@ package casketfile
 //@   requires d != nil
 //@   modifies Dispenser.cursor
 //@   ensures [monotone] d.cursor >= old(d.cursor)
+//@   // functional: the arguments are the texts of the tokens that follow on the line, in order, as written (up to a "{")
+//@   ensures [args_are_the_following_token_texts] old(d.cursor) >= 0 ==> (len(result) == d.cursor - old(d.cursor) && (len(result) > 0 ==> d.cursor < len(d.tokens)) && forall(j, 0, len(result), result[j] == d.tokens[old(d.cursor) + 1 + j].Text))
 //@   loop 1 invariant d.cursor >= old(d.cursor)
+//@   loop 1 invariant old(d.cursor) >= 0 ==> (len(args) == d.cursor - old(d.cursor) && (len(args) > 0 ==> d.cursor < len(d.tokens)) && forall(j, 0, len(args), args[j] == d.tokens[old(d.cursor) + 1 + j].Text))
 //@ func (*Dispenser).Err
 //@   requires d != nil
 //@   ensures result != nil
